@@ -774,8 +774,13 @@ func (c *Cursor) Max(ctx context.Context) error {
 	c.path = c.path[:len(c.path)-1]
 	for {
 		if len(node.Link) == 0 || node.Link[len(node.Link)-1] == nil {
+			last := len(node.Value) - 1
+			if last < 0 {
+				// entry-less node (empty tree): there is no entry to point at
+				last = 0
+			}
 			c.path = append(c.path,
-				pathEntry{node, len(node.Value) - 1})
+				pathEntry{node, last})
 			return nil
 		} else {
 			c.path = append(c.path,
@@ -910,6 +915,9 @@ func (c *Cursor) search1(ctx context.Context, key interface{}) error {
 // Ceil moves the cursor to the entry with the given key, or if not present,
 // the entry with the next-larger key.
 func (c *Cursor) Ceil(ctx context.Context, key interface{}) error {
+	if len(c.path) == 0 {
+		return nil
+	}
 	for {
 		err := c.search1(ctx, key)
 		if err != nil {
